@@ -24,6 +24,10 @@ const SigSecondAppend = "writer-minchunk-second-appendtar"
 // which is what MinChunkSize > 0 produces by design (repaired in /repo by caf62f4).
 const SigVerifyShared = "verifytoc-rejects-shared-offset"
 
+// SigDedupLink: candidate finding - importTar's "last duplicate wins" (remove + append) moves a hardlink's
+// target behind the link when the target is redefined after the link; raised only in the findings pass.
+const SigDedupLink = "dedup-moves-hardlink-target-behind-link"
+
 // SigUnpackEmpty: Unpack of a blob without any data member returns EOF (known finding; raised only in
 // the separate findings pass).
 const SigUnpackEmpty = "unpack-empty-layer"
@@ -227,6 +231,9 @@ func RunCase(out *verifutil.Out, t *Target, c *Case, maxCheck int, findings bool
 		c.Label, t.Fmt, c.Mode, c.Chunk, c.MinChunk, c.Level, c.Workers, len(c.Prio), c.InComp, len(c.Calls)))
 	rn := &runner{out: out, t: t, c: c, findings: findings}
 	rn.fail = func(sig, what string) {
+		if c.Finding && c.FindingSig != "" && (sig == "extraction-error" || sig == "extraction-differs") {
+			sig = c.FindingSig
+		}
 		if len(c.Calls) > 1 && c.MinChunk > 0 && (sig == "offset-not-member-boundary" || sig == "chunk-bytes-mismatch" ||
 			sig == "chunk-out-of-member") {
 			sig = SigSecondAppend // the shape of the defect repaired by 6f1f089
@@ -413,6 +420,14 @@ func (rn *runner) run(maxCheck int) {
 				}
 			}
 		}
+	}
+	if c.Mode != "L" {
+		// an eStargz-agnostic runtime extracts the entries in tar order: same root filesystem
+		var inAll []TarItem
+		for _, items := range inItems {
+			inAll = append(inAll, items...)
+		}
+		rn.compareExtraction(inAll, outItems)
 	}
 	rn.compareEntries(expected, outItems, landmark)
 	// ---- Unpack
